@@ -21,6 +21,7 @@ from __future__ import annotations
 
 import sys
 import threading
+import time
 import traceback
 from typing import Any, Dict, List, Optional, Tuple
 
@@ -40,6 +41,7 @@ from hippolyzer.lib.proxy.settings import ProxySettings
 from hippolyzer.lib.proxy.vocache import RegionViewerObjectCache, RegionViewerObjectCacheChain, ViewerObjectCacheEntry
 
 from . import vloop
+from .core import HarnessError
 
 # ---- the small universe -----------------------------------------------------------------------------------------
 HANDLES = ((256000 << 32) | 256000, (256256 << 32) | 256000, (256512 << 32) | 256000)
@@ -145,8 +147,24 @@ def wire(kind: str, *a) -> bytes:
     key = (kind,) + a
     b = _WIRE.get(key)
     if b is None:
-        b = _WIRE[key] = bytes(_SER.serialize(_build(kind, *a)))
+        for attempt in range(5):
+            try:
+                b = _WIRE[key] = bytes(_SER.serialize(_build(kind, *a)))
+                break
+            except OSError:
+                # Message() stats templates.py (maybe_reload_templates); the file can be missing for an instant while
+                # someone else rewrites the repository. Environment trouble, never a finding.
+                if attempt == 4:
+                    raise HarnessError("library files unreadable while building a message")
+                time.sleep(0.1)
     return b
+
+
+def parse(region, data: bytes) -> Message:
+    """Datagram -> Message through the real deserializer (errors here are harness errors, not findings)."""
+    msg = _DESER.deserialize(data)
+    msg.sender = region.circuit_addr
+    return msg
 
 
 # ---- swallowed exceptions ---------------------------------------------------------------------------------------
@@ -253,8 +271,7 @@ def connect_region(lw: LiveWorld, region):
 
 def deliver(lw: LiveWorld, region, data: bytes):
     """Simulator -> proxy datagram, handled like tests' WrappingMessageHandler (session handler, then region handler)."""
-    msg = _DESER.deserialize(data)
-    msg.sender = region.circuit_addr
+    msg = parse(region, data)
     lw.session.message_handler.handle(msg)
     region.message_handler.handle(msg)
     return msg
